@@ -130,6 +130,11 @@ def run(prog: Program, rep: Report, tier: str):
                        f"resume its first comparison mixes a checkpoint-relative value with a global count",
                        line=R.line(inits[0][0]) if inits else fi.node.lineno, clause="C06.1")
 
+    # ---- epoch numbers announced to the main sampler (also for the first, resumed epoch) ---------------------------------
+    if counters["epoch"] is not None:
+        from .c04 import set_epoch_rule
+        set_epoch_rule(rep, R, counters["epoch"], clause="C06.1")
+
     # ---- stores of the checkpoint ---------------------------------------------------------------------------------
     rep.rule("G9.checkpoint-stores", "__init__ stores the completed checkpoint component-wise: self.start_<unit> takes the "
              "local / parameter start_<unit> of the same unit, after the derivation")
